@@ -37,7 +37,10 @@ def binaryPromotion (left_type : Ty) (right_type : Ty) (type_to_check : Option T
       (.ok return_type)
       else
       (if (TySet.mem left_type right_implicities) then
-        (.ok left_type)
+        (if (isSubclass left_type right_type) then
+          (.ok right_type)
+        else
+          (.ok left_type))
       else
         (if (TySet.mem right_type left_implicities) then
           (.ok right_type)
@@ -56,7 +59,10 @@ def binaryPromotion (left_type : Ty) (right_type : Ty) (type_to_check : Option T
             (.error [1, 1, 1, 1])))))
     | none =>
       (if (TySet.mem left_type right_implicities) then
-        (.ok left_type)
+        (if (isSubclass left_type right_type) then
+          (.ok right_type)
+        else
+          (.ok left_type))
       else
         (if (TySet.mem right_type left_implicities) then
           (.ok right_type)
